@@ -56,6 +56,7 @@ type Ctx struct {
 	sets            map[string]map[string]struct{}
 	MinDistinct     int  // a run that observed fewer distinct non-trivial cases is inconclusive
 	HangIsViolation bool // C17 only: the property claims termination
+	NoDebugWorkers  bool // C18: the CLI always passes debug=false, so does the library side of the comparison
 	shard           int  // -1: parent / inline; >=0: this process executes the cases i with i % shards == shard, serially
 	shards          int
 	pending         []pendingViolation
@@ -407,6 +408,9 @@ func (c *Ctx) RunShards() {
 		go func(k int) {
 			cmd := exec.Command(os.Args[0], os.Args[1:]...)
 			cmd.Env = append(os.Environ(), fmt.Sprintf("VERIF_SHARD=%d/%d", k, w))
+			if k%2 == 1 && !c.NoDebugWorkers {
+				cmd.Env = append(cmd.Env, "VERIF_DEBUG=1") // odd workers call every entry point with debug=true
+			}
 			var buf bytes.Buffer
 			cmd.Stdout = &buf
 			cmd.Stderr = &buf
